@@ -119,3 +119,9 @@ MUTANTS += [
  {"id": "pkgdb-private-constructor-benign", "kind": "benign", "edits": [{"patch": "/verif/benign/h3-pkgdb-1/patch.diff"}]},
  {"id": "pkgdb-if-let-database-benign", "kind": "benign", "edits": [{"patch": "/verif/benign/h3-pkgdb-2/patch.diff"}]},
 ]
+MUTANTS += [
+ # probes of the three exemptions whose invariant is an argument about a loop-carried cursor or about a neighbouring split
+ {"id": "probe-distinfo-leading-blank-count-steps-two", "kind": "break", "edits": [("src/distinfo.rs", "                start += 1;", "                start += 2;")], "expect": ["PANIC@distinfo::Line::from_bytes"]},
+ {"id": "probe-plist-arg-cursor-steps-two", "kind": "break", "edits": [("src/plist.rs", "                    idx += 1;", "                    idx += 2;")], "expect": ["PANIC@plist::PlistEntry::from_bytes"]},
+ {"id": "probe-pattern-group-cut-before-closing-brace", "kind": "break", "edits": [("src/pattern.rs", "let (matches, last) = rest.split_at(n + 1);", "let (matches, last) = rest.split_at(n);")], "expect": ["PANIC@pattern::Pattern::alternate_match"]},
+]
